@@ -320,12 +320,20 @@ def run_fault_prop(prop, tier, seed, replay):
     mcp = cache_get("mcpanic", key)
     if not mcp:
         a = tlc_mc("MCPanic.tla", "MCPanic.cfg", os.path.join(WORK, "mc", "mcpanic.meta"), workers=4, timeout=900)
+        a2 = tlc_mc("MCPanic.tla", "MCPanicCloneFrom.cfg", os.path.join(WORK, "mc", "mcpanic2.meta"), workers=2, timeout=900)
+        a3 = tlc_mc("MCPanic.tla", "MCPanicCloneFromGrow.cfg", os.path.join(WORK, "mc", "mcpanic3.meta"), workers=2, timeout=900)
         b = tlc_mc("MCPanic.tla", "MCPanicGuarded.cfg", os.path.join(WORK, "mc", "mcpanicg.meta"), workers=4, timeout=900)
-        mcp = {"pinned_violates": (not a["ok"]) and a["violated"] == "PanicSafe", "guarded_ok": b["ok"],
-               "guarded_states": b["distinct"], "guarded_transitions": b["generated"]}
+        b2 = tlc_mc("MCPanic.tla", "MCPanicGuardedGrow.cfg", os.path.join(WORK, "mc", "mcpanicg2.meta"), workers=4, timeout=900)
+        mcp = {"pinned_violates": (not a["ok"]) and a["violated"] == "PanicSafe",
+               "pinned_clone_from_violates": (not a2["ok"]) and a2["violated"] == "PanicSafe",
+               "pinned_clone_from_growing_uses_freed_buffer": (not a3["ok"]) and a3["violated"] == "NoFreedBufferUsed",
+               "guarded_ok": b["ok"] and b2["ok"],
+               "guarded_states": b["distinct"] + b2["distinct"], "guarded_transitions": b["generated"] + b2["generated"]}
         cache_put("mcpanic", key, mcp)
     if not mcp["guarded_ok"]:
         raise ToolError("MCPanic: the guarded design does not satisfy PanicSafe (model error)")
+    if not (mcp["pinned_violates"] and mcp["pinned_clone_from_violates"] and mcp["pinned_clone_from_growing_uses_freed_buffer"]):
+        raise ToolError("MCPanic: the pinned design no longer shows the known findings (self-test): %s" % mcp)
     rs = run_reshape()
     kn = [k for k in load_known().get("known", []) if k["property"] == prop]
     violations, hits = [], []
@@ -346,8 +354,10 @@ def run_fault_prop(prop, tier, seed, replay):
         "callbacks_per_operation": res["ops"],
         "exhaustive": True,
         "failing_signatures": sorted({"%s/%s" % (f["op"], f["kind"]) for f in res["fails"]}),
-        "design_model": {"spec": "spec/MCPanic.tla (3 columns x 3 rows, panic at every call-back of remove / clear)",
+        "design_model": {"spec": "spec/MCPanic.tla (3 columns x 3 rows, panic at every call-back of remove / clear / clone_from from a source of 2 or 4 rows)",
                          "pinned_design_violates_PanicSafe": mcp["pinned_violates"],
+                         "pinned_clone_from_violates_PanicSafe": mcp["pinned_clone_from_violates"],
+                         "pinned_clone_from_into_a_full_smaller_table_uses_a_freed_buffer": mcp["pinned_clone_from_growing_uses_freed_buffer"],
                          "guarded_design_satisfies_PanicSafe": mcp["guarded_ok"],
                          "guarded_states": mcp["guarded_states"]},
         "design_model_reshape": {"spec": "spec/Reshape.tla (Entry::add / Entry::remove row move with a panic possible in the Drop of the removed component)",
